@@ -953,7 +953,7 @@ def parser_alive():
             "for p in range(6):\n    Pickled.load(pickle.dumps({'a': [1, 'x', (2, None)]}, p) + b'N.').dumps()\n"
             "Pickled.load(b'cverif_sink\\nrecord\\n(S\"x\"\\ntR.')\n")
     try:
-        subprocess.run([PY, "-c", code], env=env_child(), cwd=VERIF, timeout=30,
+        subprocess.run([PY, "-c", code], env=env_child(), cwd=VERIF, timeout=180,
                        stdout=subprocess.DEVNULL, stderr=subprocess.DEVNULL)
         return True          # exceptions are the business of the cases below; only a hang matters here
     except subprocess.TimeoutExpired:
